@@ -74,7 +74,7 @@ func (eng) Rule(mode string) string {
 // ---------- case format ----------
 
 type op struct {
-	Op   string `json:"op"` // ev | wm | ckpt | release | rescale | redeploy | save
+	Op   string `json:"op"` // ev | wm | ckpt | release | rescale | redeploy | save | fresh
 	Key  uint64 `json:"key,omitempty"`
 	Ns   uint64 `json:"ns,omitempty"`
 	Ek   uint64 `json:"ek,omitempty"`
@@ -915,6 +915,23 @@ func execHistory(mode string, c *hx.Case) (*hx.Result, error) {
 			}
 			terms = append(terms, fmt.Sprintf("SRelease %d %d", asked, deleted))
 			jobs_ = append(jobs_, map[string]any{"release_at": o.N, "neighbour_modes": o.Perm, "asked": asked, "deleted": deleted})
+		case "fresh":
+			// C14: the job's life ends, the WORKING storage is deleted but the savepoint storage is kept; a fresh life of
+			// the job (same operator names, checkpoint ids start again) follows over the same savepoint location
+			if mode != "c14" || o.N < 1 || o.N > 8 {
+				continue
+			}
+			cl.stopAll()
+			cl.quiesce()
+			os.RemoveAll(cl.workDir())
+			os.RemoveAll(filepath.Join(cl.jobDir(), "checkpoints"))
+			cl.gen, cl.ckptID, cl.js, cl.lastCkpt = 0, 0, nil, nil
+			if err := cl.deploy(o.N, nil); err != nil {
+				return nil, err
+			}
+			terms = append(terms, fmt.Sprintf("SFresh %d", o.N))
+			jobs_ = append(jobs_, map[string]any{"fresh_life_with": o.N})
+			tags["fresh-life-same-savepoint-storage"] = true
 		case "redeploy":
 			// the checkpoints taken since the last deployment were never published by the job (operators checkpointed
 			// locally, the job checkpoint was aborted): the job deploys the previous job checkpoint AGAIN
@@ -1230,6 +1247,8 @@ func (eng) Execute(mode string, c *hx.Case) (*hx.Result, error) {
 		return execAssign(c)
 	case "deploy":
 		return execDeploy(c)
+	case "ticks":
+		return execTicks(c)
 	default:
 		if hung {
 			return nil, fmt.Errorf("skipped: an earlier history hung the implementation")
